@@ -693,6 +693,10 @@ pub fn format_code(
 		ConvTypeV::Char => match value.clone() {
 			Val::Num(n) => {
 				let n = n.get();
+				if n <= -1.0 {
+					// `as u32` would turn every negative number into NUL
+					bail!("%c expected a code point, got {n}");
+				}
 				tmp_out.push(
 					std::char::from_u32(n as u32)
 						.ok_or_else(|| InvalidUnicodeCodepointGot(n as u32))?,
